@@ -469,6 +469,22 @@ pub fn run(case: &str, ctx: &mut Ctx) -> String {
             }
             run_tc(e, &ty, ctx)
         }
+        Some("rows") if segs.len() == 4 && hd.len() == 2 => {
+            let toks: Vec<&str> = segs[2].split_whitespace().collect();
+            let (Some(n), Ok(nrows)) = (toks.first().and_then(|s| s.parse::<usize>().ok()), segs[3].parse::<usize>()) else { return "bad-case".to_owned() };
+            let mut pos = 1;
+            let mut tys = Vec::new();
+            for _ in 0..n {
+                match parse_ty(&toks, &mut pos) {
+                    Some(t) => tys.push(t),
+                    None => return "bad-case".to_owned(),
+                }
+            }
+            if pos != toks.len() || ROW_LABELS.iter().find(|(l, _)| *l == hd[1]).map(|(_, c)| *c) != Some(segs[1]) {
+                return "bad-case".to_owned();
+            }
+            run_rows(hd[1], &tys, nrows, ctx)
+        }
         Some("tcrow") if segs.len() == 3 && hd.len() == 2 => {
             let toks: Vec<&str> = segs[2].split_whitespace().collect();
             let Some(n) = toks.first().and_then(|s| s.parse::<usize>().ok()) else { return "bad-case".to_owned() };
